@@ -658,6 +658,17 @@ class TableAttributes(TextAttributes):
                         col_idx=j,
                     )
 
+        def make_border(side, row_idx, col_idx):
+            """Border of one cell side with the configured style, width and colour."""
+            color = get_broadcast_value(f"border_color_{side}", row_idx, col_idx)
+            width = get_broadcast_value("border_width", row_idx, col_idx)
+            options = {} if width is None else {"width": width}
+            return Border(
+                style=get_broadcast_value(f"border_{side}", row_idx, col_idx),
+                color=color or None,
+                **options,
+            )
+
         rows: MutableSequence[str] = []
         for i in range(dim[0]):
             row = df.row(i)
@@ -665,9 +676,7 @@ class TableAttributes(TextAttributes):
 
             for j in range(dim[1]):
                 if j == dim[1] - 1:
-                    border_right = Border(
-                        style=get_broadcast_value("border_right", i, j)
-                    )
+                    border_right = make_border("right", i, j)
                 else:
                     border_right = None
 
@@ -696,12 +705,10 @@ class TableAttributes(TextAttributes):
                         hyphenation=get_broadcast_value("text_hyphenation", i, j),
                     ),
                     width=col_widths[j],
-                    border_left=Border(style=get_broadcast_value("border_left", i, j)),
+                    border_left=make_border("left", i, j),
                     border_right=border_right,
-                    border_top=Border(style=get_broadcast_value("border_top", i, j)),
-                    border_bottom=Border(
-                        style=get_broadcast_value("border_bottom", i, j)
-                    ),
+                    border_top=make_border("top", i, j),
+                    border_bottom=make_border("bottom", i, j),
                     vertical_justification=get_broadcast_value(
                         "cell_vertical_justification", i, j
                     ),
